@@ -68,7 +68,8 @@ func paramDuration(p string) time.Duration {
 
 // refTag reports whether the value of a field satisfies one tag.
 func refTag(t vtag, v reflect.Value) bool {
-	for v.Kind() == reflect.Ptr && v.Type() != gen.RegexpType {
+	// (through the value an interface holds as well: a nil interface is "no value" like a nil pointer)
+	for (v.Kind() == reflect.Ptr && v.Type() != gen.RegexpType) || v.Kind() == reflect.Interface {
 		if v.IsNil() {
 			return t.name != "required"
 		}
@@ -189,6 +190,7 @@ type eval struct {
 
 	viaIface    bool // the value is reached through an interface
 	ifaceDirect bool // ... and is the very value the interface holds (through pointers)
+	onIface     bool // the tag sits on a field of type interface{}
 }
 
 type pos struct {
@@ -205,6 +207,7 @@ type pos struct {
 
 	viaIface    bool
 	ifaceDirect bool
+	onIface     bool
 	noInit      bool // below an interface-held value the configuration does not mention: no InitDefaults is run there
 	set         bool // the configuration has a setting at this position (an explicit nil included; for the elements of a list: the list has one)
 }
@@ -269,7 +272,7 @@ func (w *walker) at(p pos, seg string, raw *gen.Tree) pos {
 func (w *walker) add(p pos, what string, ok, soft bool) {
 	w.evals = append(w.evals, eval{path: p.path, alts: p.alts, what: what, ok: ok, soft: soft,
 		fromCfg: p.cfg != nil, initDef: p.initDef && p.cfg == nil, viaPtr: p.viaPtr, inColl: p.inColl, inInline: p.inInline,
-		partial: p.partial && p.cfg == nil, onInline: p.onInline, numKind: p.numKind, viaIface: p.viaIface, ifaceDirect: p.ifaceDirect})
+		partial: p.partial && p.cfg == nil, onInline: p.onInline, numKind: p.numKind, viaIface: p.viaIface, ifaceDirect: p.ifaceDirect, onIface: p.onIface})
 	if what == "Validate()" && p.ifaceDirect && !ok {
 		w.d59 = true
 	}
@@ -414,6 +417,7 @@ func (w *walker) walk(td *gen.TD, v reflect.Value, p pos) {
 				if isInline(f) {
 					tq.onInline = f.T.Shape().Kind
 				}
+				tq.onIface = f.T.Kind == "iface"
 				_, tq.numKind, _ = tagCandidates(f.T)
 				w.add(tq, t.String(), refTag(t, fv), false)
 				w.elemLevel(f.T, fv, t, q)
@@ -433,6 +437,13 @@ func (w *walker) walk(td *gen.TD, v reflect.Value, p pos) {
 func (w *walker) elemLevel(td *gen.TD, v reflect.Value, t vtag, p pos) {
 	sh := td.Shape()
 	switch sh.Kind {
+	case "iface":
+		// the tag of an interface{} field that holds a list or a map
+		if !v.IsNil() {
+			if dtd := w.dynTD(v.Elem().Type(), false); dtd != nil {
+				w.elemLevel(dtd, v.Elem(), t, p)
+			}
+		}
 	case "ptr":
 		if !v.IsNil() {
 			w.elemLevel(sh.Elem, v.Elem(), t, p)
@@ -452,6 +463,10 @@ func (w *walker) elemApply(td *gen.TD, v reflect.Value, t vtag, p pos) {
 	if td.Kind == "iface" {
 		// the element an interface holds (the code applies the tag when it merges a setting into a pre-filled primitive)
 		if v.IsNil() {
+			if !refTag(t, v) {
+				p.inColl = true
+				w.add(p, t.String()+" (applied to an element)", false, true)
+			}
 			return
 		}
 		v = v.Elem()
